@@ -80,9 +80,11 @@ class CancelStageHandler(StabilizeHandler[CancelStage]):
             # Cancel all tasks that are still running
             from stabilize.resilience.cancellation import cancel_task
 
+            canceled_tasks = []
             for task in stage.tasks:
                 if task.status in {WorkflowStatus.NOT_STARTED, WorkflowStatus.RUNNING}:
                     self.set_task_status(task, WorkflowStatus.CANCELED)
+                    canceled_tasks.append(task)
                     task.end_time = self.current_time_millis()
                     # Signal any cooperatively-cancellable task currently executing
                     # so it can stop early (no-op if the task isn't running here or
@@ -113,6 +115,14 @@ class CancelStageHandler(StabilizeHandler[CancelStage]):
             if self.event_recorder:
                 self.set_event_context(stage.execution.id if stage.execution else "")
                 self.event_recorder.record_stage_canceled(stage, source_handler="CancelStageHandler")
+                # The tasks canceled together with the stage get a completion
+                # event carrying status CANCELED, so a replay agrees with the store.
+                for task in canceled_tasks:
+                    self.event_recorder.record_task_completed(
+                        task,
+                        workflow_id=stage.execution.id if stage.execution else "",
+                        source_handler="CancelStageHandler",
+                    )
 
             logger.info("Canceled stage %s (%s)", stage.name, stage.id)
 
